@@ -4,14 +4,23 @@ import json, os, re
 out = ["# Kill matrix", "", "Verdict of the quick tier of the targeted check with the change applied to /repo (undone straight afterwards).", "",
        "## Seeded changes written by independent sub-agents", "", "| change | breaks | what it is (agent's words, first line) | check verdict | first report |", "|---|---|---|---|---|"]
 sd = "/verif/seeded"
-for d in sorted(os.listdir(sd)):
+def natural(d):
+    a, b = d.split("_")
+    return (a, int(b))
+for d in sorted(os.listdir(sd), key=natural):
     mp = os.path.join(sd, d, "meta.json")
     if not os.path.exists(mp): continue
     m = json.load(open(mp))
     notes = [l.strip("# *-").strip() for l in m.get("agent_notes", "").splitlines() if l.strip()]
     what = (notes[0] if notes else "")[:110].replace("|", "/")
+    nd = m.get("not_detected_by_design")
     for cid, r in m.get("detected_by", {}).items():
-        out.append(f"| {d} | {m['breaks_property']} | {what} | {cid}: {r['verdict']} | {r.get('first_line','')[:140].replace('|','/')} |")
+        verdict = f"{cid}: {r['verdict']}" + (" (thorough tier)" if r.get("tier") == "thorough" else "")
+        first = r.get('first_line','')[:140].replace('|','/')
+        if nd and r['verdict'] != "VIOLATION":
+            verdict += " - not covered, on purpose"
+            first = nd[:400].replace('|','/')
+        out.append(f"| {d} | {m['breaks_property']} | {what} | {verdict} | {first} |")
 out += ["", "## Own mutants (selftest/mutants)", "", "| mutant | targets | existing tests | check verdict | first report |", "|---|---|---|---|---|"]
 rp = "/verif/selftest/results.json"
 if os.path.exists(rp):
